@@ -23,6 +23,7 @@ ASSUMPTIONS = [
     "start values are 16-bit (the property's quantifier); wider/negative starts are not judged",
 ]
 TIMEOUT = {"quick": 900, "thorough": 7200}
+OPTIMIZED_SHARDS = ("long", "short")  # these shards also run under python -O
 NSTEP = 16
 
 
